@@ -285,7 +285,8 @@ def run_clone_twin(spec):
 
 
 def make_scheduler(name, cs, seed, p2e):
-    common = dict(metric=METRIC, mode="min", random_seed=seed, points_to_evaluate=p2e)
+    # half of the twins run in mode "max" (sort direction of rungs etc. is part of the pickled state)
+    common = dict(metric=METRIC, mode="max" if seed % 2 else "min", random_seed=seed, points_to_evaluate=p2e)
     bo = {"num_init_random": 2, "debug_log": False, "num_init_candidates": 8, "opt_maxiter": 6, "opt_nstarts": 1}
     if name == "fifo-random":
         return FIFOScheduler(dict(cs), searcher="random", **common)
@@ -296,7 +297,7 @@ def make_scheduler(name, cs, seed, p2e):
     if name.startswith("hb-"):
         _, typ, srch = name.split("-")
         kw = dict(resource_attr=RES, max_t=MAX_T, grace_period=1, reduction_factor=3, type=typ,
-                  brackets=2 if seed % 2 else 1)
+                  brackets=2 if (seed // 2) % 2 else 1)
         if srch == "bo":
             return HyperbandScheduler(dict(cs), searcher="bayesopt", search_options=bo, **kw, **common)
         return HyperbandScheduler(dict(cs), searcher="random", **kw, **common)
@@ -504,6 +505,14 @@ def gen_cases(rng, tier):
         yield {"scenario": "clone-twin", "kind": kind, "space": space, "p2e": p2e, "ctor": ctor,
                "n_ops": rng.choice([12, 25, 40]) if quick else rng.choice([25, 40, 80]), "seed": rng.randrange(10 ** 9),
                "lookahead": 10 if quick else 16, "raw_state": rng.random() < 0.1}
+    # (b') random searcher with allow_duplicates=True on a tiny finite space: the only memory of a failed
+    # configuration is the exclusion list, which has to survive the snapshot
+    for _ in range(12 if quick else 200):
+        space = S.gen_space(rng, finite=True, small=True, n_hp=1, consts=False)
+        yield {"scenario": "clone-twin", "kind": "random", "space": space, "p2e": [],
+               "ctor": {"allow_duplicates": True, "random_seed": rng.randrange(1000), "shuffle": True, "num_samples": {},
+                        "debug_log": False},
+               "n_ops": 40, "seed": rng.randrange(10 ** 9), "lookahead": 14, "raw_state": False}
     # (c) dill twins of whole schedulers
     for i in range(44 if quick else 700):
         name = DILL_SCHEDS[i % len(DILL_SCHEDS)]
